@@ -218,15 +218,8 @@ Theorem C05_maxretry_fails_fire : forall w w' e wr,
 Proof. exact maxretry_fails_fire. Qed.
 Print Assumptions C05_maxretry_fails_fire.
 
-(* the decision of a Running job's sync (running.go 66-112) is EXACTLY the stated verdict on the
-   counters and the per-task table it is handed: Completed / Failed / Pending / stay Running, for
-   every spec (task minimums, job minAvailable below / equal to / above their sum, minSuccess set or
-   not) and every status *)
-Theorem C05_running_sync_verdict : forall sp s,
-  running_sync sp s = match running_verdict sp (st_cnt s) (st_tsc s) with Some p => set_phase s p | None => s end.
-Proof. exact running_sync_verdict. Qed.
-Print Assumptions C05_running_sync_verdict.
-
+(* (running_sync = running_verdict, which re-spells the decision for the law, is a lemma of
+   C05/Lemmas.v (running_sync_verdict) and not counted as a property theorem: audit W6) *)
 (* Completed is written only if minSuccess is reached or, whenever job.minAvailable >= the sum of the
    task minimums (equality included: that is what the admission webhook defaults to), every task
    that has a minAvailable reached it *)
@@ -239,6 +232,55 @@ Proof. exact running_completed_only_if. Qed.
 Print Assumptions C05_running_completed_only_if.
 
 (* non-vacuity *)
+(* ---- the phase the API SERVER shows, over EVERY history (requests with any fault set, expiring delayed
+   actions, pod / PodGroup events, deliveries in any order, stale deliveries, restarts, spec updates;
+   the job not replaced by a new one of the same name): every consecutive pair of phases is a transition
+   of the relation.  Invariant carried through the history: job cache and API server agree on the phase
+   (phase_agree; a refused status write leaves both at the old phase). ---- *)
+Theorem C05_api_phase_history : forall ops w,
+  Forall same_job ops -> phase_agree w -> phase_chain (st_phase (w_st w)) (api_phases w ops).
+Proof. exact api_phase_history. Qed.
+Print Assumptions C05_api_phase_history.
+
+(* [allowed] compared with the documented table (docs/design/job-api.md 171-177, stable phases only,
+   temporary phases contracted): the code goes beyond it exactly by Failed, Pending -> Completed /
+   Terminated and Running -> Pending *)
+Example C05_allowed_vs_documented_table :
+  map (fun p => (p, beyond p)) [PhPending; PhAborted; PhRunning; PhCompleted; PhTerminated] =
+  [(PhPending, [PhFailed; PhCompleted; PhTerminated]); (PhAborted, [PhFailed]); (PhRunning, [PhPending; PhFailed]);
+   (PhCompleted, []); (PhTerminated, [])].
+Proof. exact allowed_vs_documented_table. Qed.
+
+(* an expired delayed action with retryCount >= maxRetry: a written status is Failed (the conjunct the
+   request version has; an expiry has no faults) *)
+Theorem C05_maxretry_fails_fire_written : forall w w' e wr,
+  fire w = (w', e, wr) ->
+  st_phase (v_st w) = PhRestarting -> s_maxretry (v_spec w) <= st_retry (v_st w) -> wr = true ->
+  st_phase (v_st w') = PhFailed /\ st_phase (w_st w') = PhFailed.
+Proof. exact maxretry_fails_fire_written. Qed.
+Print Assumptions C05_maxretry_fails_fire_written.
+
+(* two writers (the worker and the goroutine of an expired delayed action) are serialised in the model;
+   what arbitrates them in a cluster is the API server's resourceVersion check on UpdateStatus.  The
+   loser of that check (every UpdateStatus of the execution refused) leaves the API server's status
+   untouched and reports no written status: for every action, request and remaining fault set *)
+Theorem C05_refused_status_writer : forall w a r F w' e wr,
+  execute w a r F = (w', e, wr) -> (forall n, fails_status F n = true) ->
+  w_st w' = w_st w /\ wr = false.
+Proof. exact refused_status_writer. Qed.
+Print Assumptions C05_refused_status_writer.
+
+Theorem C05_refused_status_writer_req : forall w r F w' e wr,
+  step_req w r F = (w', e, wr) -> (forall n, fails_status F n = true) -> w_st w' = w_st w /\ wr = false.
+Proof. exact refused_status_writer_req. Qed.
+Print Assumptions C05_refused_status_writer_req.
+
+(* the executable counters law MEANS the clause: partition_ok = true implies counters = tally of the pods *)
+Theorem C05_partition_ok_sound : forall s pods,
+  partition_ok s pods = true -> (st_cnt s, st_term s) = tally pods.
+Proof. exact partition_ok_sound. Qed.
+Print Assumptions C05_partition_ok_sound.
+
 Example C05_fixed_on_pgpending_witness :
   exists w', step_req pgpending_world sync_req [] = (w', false, true) /\
              partition_ok (w_st w') (w_pods w') = true /\ st_phase (w_st w') = PhFailed /\ st_term (w_st w') = 0.
@@ -303,3 +345,22 @@ Example C05_nonvacuous_running_boundary :
   total_task_min sp = s_min sp /\ st_phase (running_sync sp s) = PhFailed /\
   st_phase (running_sync (mkSpec (s_tasks sp) 1 None 3 []) s) = PhCompleted.
 Proof. exact running_boundary_example. Qed.
+
+Example C05_nonvacuous_api_phase_history :
+  phase_agree f2_world /\
+  api_phases f2_world [OReq sync_req []; OFire; ORestart; OSyncJob] = [PhCompleted; PhCompleted; PhCompleted; PhCompleted] /\
+  let w := init_world one_task_spec (mkStatus PhNone 0 0 0 c0 0 [] true false) [] None in
+  api_phases w [OReq sync_req []; OPgPhase PgRunning; OSyncPg; OReq sync_req []; OPodPhase 1 0 PSucceeded; OSyncPods;
+                OReq sync_req []; OReq sync_req []] =
+  [PhPending; PhPending; PhPending; PhPending; PhPending; PhPending; PhRunning; PhCompleted].
+Proof. exact api_phase_history_nonvacuous. Qed.
+
+Example C05_nonvacuous_version :
+  let w1 := run ver_world [OReq (ver_req 0) []] in
+  Forall same_job [OReq (ver_req 0) []] /\ st_version (w_st ver_world) <= st_version (v_st ver_world) /\
+  st_version (w_st ver_world) = 0 /\ st_version (w_st w1) = 1 /\ st_version (v_st w1) = 1 /\
+  st_phase (w_st w1) = PhRestarting /\ st_retry (w_st w1) = 1 /\
+  r_action (ver_req 0) = None /\ r_version (ver_req 0) < st_version (v_st w1) /\
+  apply_policies ver_spec (v_st w1) (ver_req 0) = ASync /\
+  apply_policies ver_spec (v_st w1) (ver_req 1) = ARestartJob.
+Proof. exact version_example. Qed.
